@@ -9,8 +9,11 @@ BASE = dict(
     CAPSETS='{%s, {}}' % ALLCAPS,
     RENDERKINDS='{}', ENC8='{FALSE}', DSNS='{"off"}', NONOOP='{FALSE}',
     SHAPES='{"lead"}', CLASSES='{"t4", "p5", "drop"}', CODESETS='{51}',
+    POLICIES='{"none"}', AUTHTYPES='{"NOAUTH"}', HOSTKINDS='{"other"}', STARTTLSADV='{FALSE}',
+    AUTHLISTS='{{}}', HANDSHAKES='{"ok"}', CAPS2='{{}}', LOGAUTH='{FALSE}',
     DEV_ImplicitDot='FALSE', DEV_NoRsetAfterDataReject='FALSE', DEV_ContinueAfterRsetFail='FALSE',
-    DEV_LeakOnDialError='FALSE', DEV_QuitFailureLeavesConn='FALSE')
+    DEV_LeakOnDialError='FALSE', DEV_QuitFailureLeavesConn='FALSE', DEV_NoDeadlineInDial='FALSE',
+    DEV_NoopBeforeDeadline='FALSE', DEV_WindowStaysOpen='FALSE')
 
 
 def cfg(**kw):
@@ -19,7 +22,7 @@ def cfg(**kw):
     return c
 
 
-INVS = ['NoViolation', 'TypeOK', 'Terminates', 'Emit']
+INVS = ['NoViolation', 'TypeOK', 'NeverBlocked', 'Terminates', 'Emit']
 
 # per property and tier: list of (label, base module, constants)
 STAGES = {
@@ -57,6 +60,60 @@ STAGES = {
                                                   CAPSETS='{%s, {}}' % ALLCAPS)),
         ],
     },
+    'C19': {
+        'quick': [
+            ('dial-tls-noauth-b1', 'Session', cfg(OP='"Dial"', N='1', MAXR='1', BUDGET='1', CAPSETS='{{}}', CODESETS='{54, 21}',
+                                                  POLICIES='{"mandatory", "opportunistic", "none"}', STARTTLSADV='BOOLEAN',
+                                                  HANDSHAKES='{"ok", "wrongname", "untrusted", "garbage"}')),
+            ('dial-auth-b1', 'Session', cfg(OP='"Dial"', N='1', MAXR='1', BUDGET='1', CAPSETS='{{}}',
+                                            CLASSES='{"t4", "p5", "drop", "mal"}',
+                                            AUTHTYPES='{"PLAIN", "PLAIN-NOENC", "LOGIN", "CRAM-MD5", "XOAUTH2", "SCRAM-SHA-256", "AUTODISCOVER"}',
+                                            AUTHLISTS='{{}, {"PLAIN", "LOGIN", "XOAUTH2"}, {"CRAM-MD5", "SCRAM-SHA-256", "SCRAM-SHA-1"}}',
+                                            HOSTKINDS='{"localhost", "other"}')),
+            ('dial-tls-auth-b1', 'Session', cfg(OP='"Dial"', N='1', MAXR='1', BUDGET='1', CAPSETS='{{}}',
+                                                CLASSES='{"t4", "p5", "drop", "mal"}', POLICIES='{"mandatory"}', STARTTLSADV='{TRUE}',
+                                                AUTHTYPES='{"PLAIN", "LOGIN", "SCRAM-SHA-256-PLUS", "AUTODISCOVER"}',
+                                                AUTHLISTS='{{"PLAIN", "LOGIN"}, {"SCRAM-SHA-256-PLUS", "SCRAM-SHA-1", "PLAIN"}}')),
+            ('dialandsend-1x2-b2', 'Session', cfg(OP='"DialAndSend"', N='1', BUDGET='2', CAPSETS='{{}}', RENDERKINDS='{"failMid"}')),
+            ('dialandsend-2x1-b2', 'Session', cfg(OP='"DialAndSend"', N='2', MAXR='1', BUDGET='2', CAPSETS='{{}}')),
+        ],
+        'thorough': [
+            ('dial-tls-noauth-b2', 'Session', cfg(OP='"Dial"', N='1', MAXR='1', BUDGET='2', CAPSETS='{{}}', CODESETS='{54, 21, 0, 99}',
+                                                  CLASSES='{"t4", "p5", "drop", "garbage"}',
+                                                  POLICIES='{"mandatory", "opportunistic", "none"}', STARTTLSADV='BOOLEAN',
+                                                  HANDSHAKES='{"ok", "wrongname", "untrusted", "garbage"}')),
+            ('dial-auth-b2', 'Session', cfg(OP='"Dial"', N='1', MAXR='1', BUDGET='2', CAPSETS='{{}}',
+                                            CLASSES='{"t4", "p5", "drop", "mal"}',
+                                            AUTHTYPES='{"PLAIN", "PLAIN-NOENC", "LOGIN", "LOGIN-NOENC", "CRAM-MD5", "XOAUTH2", "SCRAM-SHA-1", "SCRAM-SHA-256", "AUTODISCOVER"}',
+                                            AUTHLISTS='{{}, {"PLAIN", "LOGIN", "XOAUTH2"}, {"CRAM-MD5", "SCRAM-SHA-256", "SCRAM-SHA-1"}, {"LOGIN"}}',
+                                            HOSTKINDS='{"localhost", "other"}')),
+            ('dial-tls-auth-b2', 'Session', cfg(OP='"Dial"', N='1', MAXR='1', BUDGET='2', CAPSETS='{{}}',
+                                                CLASSES='{"t4", "p5", "drop", "mal"}', POLICIES='{"mandatory", "opportunistic"}', STARTTLSADV='{TRUE}',
+                                                AUTHTYPES='{"PLAIN", "LOGIN", "SCRAM-SHA-256-PLUS", "SCRAM-SHA-1-PLUS", "AUTODISCOVER"}',
+                                                AUTHLISTS='{{"PLAIN", "LOGIN"}, {"SCRAM-SHA-256-PLUS", "SCRAM-SHA-1", "PLAIN"}, {"SCRAM-SHA-1-PLUS"}}')),
+            ('dialandsend-2x2-b3', 'Session', cfg(OP='"DialAndSend"', N='2', BUDGET='3', CAPSETS='{{}}', RENDERKINDS='{"failMid"}')),
+        ],
+    },
+    'C17': {
+        'quick': [
+            ('dial-stall', 'Session', cfg(OP='"Dial"', N='1', MAXR='1', BUDGET='1', CAPSETS='{{}}', CLASSES='{"stall"}',
+                                          POLICIES='{"mandatory", "opportunistic", "none"}', STARTTLSADV='{TRUE}', HANDSHAKES='{"ok", "stall"}',
+                                          AUTHTYPES='{"NOAUTH", "PLAIN-NOENC", "LOGIN-NOENC", "CRAM-MD5", "SCRAM-SHA-256", "XOAUTH2"}',
+                                          AUTHLISTS='{{"PLAIN", "LOGIN", "CRAM-MD5", "SCRAM-SHA-256", "XOAUTH2"}}')),
+            ('send-stall', 'Session', cfg(BUDGET='1', CAPSETS='{{}}', CLASSES='{"stall"}', NONOOP='BOOLEAN')),
+            ('dialandsend-stall', 'Session', cfg(OP='"DialAndSend"', N='1', BUDGET='1', CAPSETS='{{}}', CLASSES='{"stall"}')),
+            ('reset-stall', 'Session', cfg(OP='"Reset"', N='1', MAXR='1', BUDGET='1', CAPSETS='{{}}', CLASSES='{"stall"}', NONOOP='BOOLEAN')),
+        ],
+        'thorough': [
+            ('dial-stall-b2', 'Session', cfg(OP='"Dial"', N='1', MAXR='1', BUDGET='2', CAPSETS='{{}}', CLASSES='{"stall", "t4"}',
+                                             POLICIES='{"mandatory", "opportunistic", "none"}', STARTTLSADV='BOOLEAN', HANDSHAKES='{"ok", "stall"}',
+                                             AUTHTYPES='{"NOAUTH", "PLAIN", "PLAIN-NOENC", "LOGIN-NOENC", "CRAM-MD5", "SCRAM-SHA-1", "SCRAM-SHA-256", "SCRAM-SHA-256-PLUS", "XOAUTH2", "AUTODISCOVER"}',
+                                             AUTHLISTS='{{"PLAIN", "LOGIN", "CRAM-MD5", "SCRAM-SHA-1", "SCRAM-SHA-256", "SCRAM-SHA-256-PLUS", "XOAUTH2"}}')),
+            ('send-stall-b2', 'Session', cfg(N='3', BUDGET='2', CAPSETS='{{}}', CLASSES='{"stall", "p5"}', NONOOP='BOOLEAN')),
+            ('dialandsend-stall-b2', 'Session', cfg(OP='"DialAndSend"', N='2', BUDGET='2', CAPSETS='{{}}', CLASSES='{"stall", "p5"}')),
+            ('reset-stall', 'Session', cfg(OP='"Reset"', N='1', MAXR='1', BUDGET='2', CAPSETS='{{}}', CLASSES='{"stall", "t4"}', NONOOP='BOOLEAN')),
+        ],
+    },
     'C20': {
         'quick': [
             ('send-2x2-b2-shapes', 'Session', cfg(SHAPES='{"lead", "later", "none"}', CLASSES='{"t4", "p5"}',
@@ -73,6 +130,27 @@ STAGES = {
                                                        CAPSETS='{{"ENHANCEDSTATUSCODES"}}')),
         ],
     },
+}
+
+_DIALSTALL = dict(OP='"Dial"', N='1', MAXR='1', BUDGET='1', CAPSETS='{{}}', CLASSES='{"stall"}',
+                  POLICIES='{"mandatory", "none"}', STARTTLSADV='{TRUE}', HANDSHAKES='{"ok", "stall"}',
+                  AUTHTYPES='{"NOAUTH", "LOGIN-NOENC", "SCRAM-SHA-256"}', AUTHLISTS='{{"LOGIN", "SCRAM-SHA-256"}}')
+LIVENESS = {
+    'C17': [('dial-stall', 'Session', cfg(**_DIALSTALL)),
+            ('send-stall', 'Session', cfg(BUDGET='1', CAPSETS='{{}}', CLASSES='{"stall"}')),
+            ('dialandsend-stall', 'Session', cfg(OP='"DialAndSend"', N='1', BUDGET='1', CAPSETS='{{}}', CLASSES='{"stall"}'))],
+}
+# named deviations of the pinned code: the design predicates must catch them
+SENSITIVITY = {
+    'C17': [('DEV_NoDeadlineInDial', 'Session', cfg(DEV_NoDeadlineInDial='TRUE', **_DIALSTALL), 'NeverBlocked'),
+            ('DEV_NoopBeforeDeadline', 'Session', cfg(OP='"Reset"', N='1', MAXR='1', BUDGET='1', CAPSETS='{{}}', CLASSES='{"stall"}',
+                                                      DEV_NoopBeforeDeadline='TRUE'), 'NeverBlocked')],
+    'C03': [('DEV_ImplicitDot', 'Session', cfg(RENDERKINDS='{"failMid"}', CAPSETS='{{}}', BUDGET='0', DEV_ImplicitDot='TRUE'), 'NoViolation')],
+    'C04': [('DEV_NoRsetAfterDataReject', 'Session', cfg(CAPSETS='{{}}', BUDGET='1', DEV_NoRsetAfterDataReject='TRUE'), 'NoViolation'),
+            ('DEV_ContinueAfterRsetFail', 'Session', cfg(CAPSETS='{{}}', BUDGET='2', DEV_ContinueAfterRsetFail='TRUE'), 'NoViolation')],
+    'C19': [('DEV_LeakOnDialError', 'Session', cfg(OP='"Dial"', N='1', MAXR='1', BUDGET='1', CAPSETS='{{}}', DEV_LeakOnDialError='TRUE'), 'NoViolation'),
+            ('DEV_QuitFailureLeavesConn', 'Session', cfg(OP='"DialAndSend"', N='1', MAXR='1', BUDGET='1', CAPSETS='{{}}',
+                                                         DEV_QuitFailureLeavesConn='TRUE'), 'NoViolation')],
 }
 
 TRACE_SPEC = ('TraceSession.tla', 'TraceSession.cfg')
@@ -292,6 +370,25 @@ def mut_no_quit(evs):
     return evs[:j] + evs[j + 2:]
 
 
+def _mut_ret(evs, k, v):
+    i = _find(evs, lambda e: e['ev'] == 'ret' and e['op'] in ('Dial', 'Send', 'DialAndSend', 'Reset'))
+    if i < 0:
+        return None
+    evs[i][k] = v
+    return evs
+
+
+def _mut_stall_ok(evs):
+    j = _find(evs, lambda e: e['ev'] == 'stall')
+    if j < 0:
+        return None
+    i = _find(evs, lambda e: e['ev'] == 'ret', j)
+    if i < 0 or not evs[i]['err']:
+        return None
+    evs[i]['err'] = False
+    return evs
+
+
 SELFTESTS = {
     'C03': [('eod complete->prefix', mut_eod_prefix, 'C03_CompleteOnly'),
             ('flip delivered', mut_flip_delivered, 'C03_DeliveredIffAck'),
@@ -307,6 +404,8 @@ SELFTESTS = {
             ('wrong recipients', mut_wrong_rcpts, 'C20_Recipients'), ('error hidden', mut_hide_error, 'C20_ErrorReported'),
             ('spurious error', mut_spurious_error, 'C20_NoErrorWhenUnaffected'),
             ('joined error count', mut_nerrs, 'C20_OneEntryPerFailedMessage')],
+    'C17': [('late return', lambda evs: _mut_ret(evs, 'elapsed', 'late'), 'C17_Bounded'),
+            ('success despite stall', lambda evs: _mut_stall_ok(evs), 'C17_ErrorOnStall')],
     'C19': [('close removed', mut_no_close, 'C19_ClosedOnError'),
             ('QUIT removed', mut_no_quit, 'C19_ClosedAfterDialAndSend')],
 }
